@@ -87,6 +87,32 @@ CHECKS["C18"] = dict(
     note="Trusted: executor + models (validated incl. under a non-empty context), z3. Contexts longer than 2 entries are outside the claim.",
     ref="DESIGN.md 4 (C18)")
 
+CHECKS["C07"] = dict(
+    text="Two parts. (A) tree shape: the real reassociate_applications/_products_and_quotients/_sums_and_differences, composed as in parse(), are executed "
+         "symbolically (summarised, merged) on the right-nested chains of every expression with <= 4 (quick) / 5 (thorough) operands over application, * /, + - and "
+         "parentheses; the operator of every link is symbolic; z3 decides slot by slot that the result is the left fold that honours every parenthesis. "
+         "(C) grammar.y itself: for every token string of length <= 6/8 over the 28 token kinds, z3 shows that no span has two derivations (encoding generated "
+         "from /repo/grammar.y on every run). One defect found by (A) was repaired (fix: 49713ec). Part B (which token strings the packrat functions accept) "
+         "is NOT claimed: symbolic execution of the 36 memoised parse functions does not reach useful lengths.",
+    note="Trusted: executor + models (validated on concrete chains against the compiled re-association), the left-fold reference, z3. The input chains are "
+         "assumed to be built as the packrat functions build them.",
+    ref="DESIGN.md 4 (C07)")
+CHECKS["C08"] = dict(
+    text="Bounded symbolic verification of scoping: the real parser::resolve_variables/collect_definitions run by path forking on every syntax-tree skeleton "
+         "of <= 6 (quick) / 7 (thorough) nodes over variable, lambda, pi, application, let (groups via nested lets), with every binder/occurrence/context name "
+         "symbolic over {_, a, b}; the solver decides which names coincide. Oracle: an independent named-scope resolver. Obligations: rejected iff an unbound "
+         "name or re-binding exists; unbound occurrences reported once at their identifier; on success all indices/holes equal the reference, the name map is "
+         "unchanged, the parser-output invariants hold.",
+    note="Trusted: executor + models (validated against the compiled resolve_variables), the reference resolver, z3. Identifier spelling is C09's part.",
+    ref="DESIGN.md 4 (C08)")
+CHECKS["C13"] = dict(
+    text="Determinism as an explored choice: in the executor every iteration over a RandomState hash container visits its elements in an order chosen by the "
+         "search; check_definitions is run twice with independent orders on symbolic definition groups (2-3 definitions quick, up to 4 thorough; which definition "
+         "mentions which is symbolic) and z3 decides that the diagnostic sequences are identical; the rest of the pipeline must not iterate a hash container at "
+         "all. The defect this found was repaired (fix: 951bf89); counterexamples are confirmed by 60 native runs with fresh hash keys.",
+    note="Trusted: executor + models, z3. Process-level variation (environment, colour settings, separate launches) is outside the encoding.",
+    ref="DESIGN.md 4 (C13)")
+
 NOT_APPLICABLE = {
     "C16": "printer round trip needs the packrat parser on 10-25 tokens; symbolic execution of the parser does not reach that (DESIGN.md section 6)",
     "C17": "asymptotic running time over n in the thousands is not observable by bounded symbolic execution (DESIGN.md section 6)",
